@@ -2037,7 +2037,7 @@ class sptensor:
         """
         # Check that vector is a list of vectors,
         # if not place single vector as element in list
-        if len(vector) > 0 and isinstance(vector[0], (int, float, np.int_, np.float64)):
+        if len(vector) > 0 and isinstance(vector[0], (int, float, np.number)):
             return self.ttv(np.array([vector]), dims, exclude_dims)
 
         # Get sorted dims and index for multiplicands
